@@ -2,21 +2,134 @@
 
 package jsonrpc
 
+// Contracts for contract-based deductive verification (checked by /verif/tool, see /verif/DESIGN.md).
+// This file contains comments only; it is compiled only with the build tag `verif` and adds no code.
+
 //@ property C10 units: normalizeID, (*wsConn).cancelCtx, (*wsConn).handleChanMessage, (*wsConn).handleChanClose, (*wsConn).handleResponse, (*wsConn).handleFrame, (*wsConn).frameExecutor, (*wsConn).handleCall, (*wsConn).readFrame, (*wsConn).nextMessage, (*handler).handleReader, (*handler).handle, rpcError, (*handler).createError, (response).MarshalJSON, (*handler).getSpan, (*JSONRPCError).val, (*rpcFunc).processResponse, (*client).makeOutChan$1$2
 //@ property C13 units: doCall
 //@ property C05 units: (*backoff).next
 
+//@ -- ------------------------------------------------------------------ shared vocabulary
 //@ pred idok(x) := typeof(x) == #string || typeof(x) == #float64 || x == nil
+//@ pred wfHandler(h) := (h.hasCtx == 0 || h.hasCtx == 1) && h.nParams >= 0 && len(h.paramReceivers) == h.nParams && (h.hasRawParams ==> h.nParams >= 1) && (h.errOut == -1 || (0 <= h.errOut && h.errOut < NumOut(rtypeOf(h.handlerFunc)))) && (h.valOut == -1 || (0 <= h.valOut && h.valOut < NumOut(rtypeOf(h.handlerFunc)))) && (h.errOut != -1 ==> OutT(rtypeOf(h.handlerFunc), h.errOut) == errorType)
+//@ pred handlersOK(s) := s.methods != nil && (forall k: U :: present(s.methods, k) ==> wfHandler(s.methods[k])) && (forall t: U :: present(s.paramDecoders, t) ==> s.paramDecoders[t] != nil)
+//@ axiom error-typed-values: forall v: U :: rtypeOf(v) == errorType ==> (ifaceOf(v) == nil || istype(ifaceOf(v), #error))
+//@ axiom codec-typed-values: forall v: U :: rImplements(rtypeOf(v), errorCodecRT) ==> istype(ifaceOf(v), #RPCErrorCodec)
+//@ axiom marshalable-typed-values: forall v: U :: rImplements(rtypeOf(v), marshalableRT) ==> istype(ifaceOf(v), #marshalable)
+//@ pred wfRpcFunc(fn) := fn.client != nil && fn.nout >= 0 && (fn.valOut == -1 || (0 <= fn.valOut && fn.valOut < fn.nout)) && (fn.errOut == -1 || (0 <= fn.errOut && fn.errOut < fn.nout)) && (fn.hasCtx == 0 || fn.hasCtx == 1)
 
+//@ -- ------------------------------------------------------------------ locks
+//@ lockorder wsConn.writeLk < wsConn.errLk
+//@ lockorder wsConn.writeLk < wsConn.inflightLk
+//@ lockorder wsConn.chanHandlersLk < chanHandler.lk
+//@ guards wsConn.inflightLk: wsConn.inflight inv tables-nonnil: self.inflight != nil [C10,C14]
+//@ guards wsConn.handlingLk: wsConn.handling inv handling-ok: self.handling != nil && (forall k: U :: present(self.handling, k) ==> self.handling[k] != nil) [C10,C14]
+//@ guards wsConn.chanHandlersLk: wsConn.chanHandlers inv sinks-ok: self.chanHandlers != nil && (forall k :: present(self.chanHandlers, k) ==> self.chanHandlers[k] != nil && self.chanHandlers[k].cb != nil) [C10,C14]
+//@ guards wsConn.errLk: wsConn.incomingErr [C14]
+
+//@ -- function types: what every value of the type guarantees (each concrete function of that type is verified against it)
+//@ functype makeChanSink
+//@   ensures result1 != nil
+//@ -- ------------------------------------------------------------------ websocket.go
 //@ func normalizeID
+//@   modifies nothing
 //@   ensures idok: result1 == nil ==> idok(result0) [C10,C02,C09]
 //@   ensures err-or-id: result1 != nil ==> result0 == nil [C09]
 //@   nopanic [C10]
 
+//@ func (*wsConn).cancelCtx
+//@   nopanic [C10]
+
+//@ func (*wsConn).handleChanMessage
+//@   nopanic [C10]
+
+//@ func (*wsConn).handleChanClose
+//@   nopanic [C10]
+
+//@ func (*wsConn).handleResponse
+//@   requires idok(frame.ID)
+//@   nopanic [C10]
+
+//@ func (*wsConn).handleCall
+//@   requires idok(frame.ID)
+//@   nopanic [C10]
+
+//@ func (*wsConn).handleFrame
+//@   requires idok(frame.ID)
+//@   nopanic [C10]
+
+//@ func (*wsConn).frameExecutor
+//@   requires ctx != nil
+//@   nopanic [C10]
+
+//@ func (*wsConn).readFrame
+//@   requires c.incoming != nil && !closed(c.incoming)
+//@   nopanic [C10]
+
+//@ func (*wsConn).nextMessage
+//@   requires c.incoming != nil && !closed(c.incoming)
+//@   nopanic [C10]
+
+//@ func (*client).makeOutChan$1$2
+//@   requires incoming != nil && !closed(incoming)
+//@   requires 0 <= valOut && valOut < NumOut(ftyp)
+//@   nopanic [C10]
+
+//@ -- ------------------------------------------------------------------ handler.go / server.go
+//@ func (*handler).handleReader
+//@   requires rpcError != nil && handlersOK(s)
+//@   ghost sizeRejected : Bool = false
+//@   at ret ReadFrom: let nread = $result0
+//@   at ret ReadFrom: let readErr = $result1
+//@   at call xerrors.Errorf: set sizeRejected = sizeRejected || $0 == "request bigger than maximum %d allowed"
+//@   at call handle: assert no-handler-when-oversize: nread <= s.maxRequestSize [C10]
+//@   loop 1 invariant not-size-rejected: !sizeRejected [C10]
+//@   ensures reject-exactly-above-limit: readErr == nil ==> (sizeRejected == (nread > s.maxRequestSize)) [C10]
+//@   ensures oversize-never-handled: sizeRejected ==> calls(handle) == 0 && calls(rpcError) == 1 [C10]
+//@   nopanic [C10]
+
+//@ func (*handler).handle
+//@   modifies nothing
+//@   requires rpcError != nil && w != nil && done != nil && handlersOK(s)
+//@   loop 1 invariant param-index: i >= 0 [C10,C01,C12]
+//@   nopanic [C10]
+
+//@ func rpcError
+//@   modifies nothing
+//@   requires wf != nil
+//@   nopanic [C10]
+
+//@ func (*handler).createError
+//@   modifies nothing
+//@   requires err != nil
+//@   ensures result != nil [C11,C10]
+//@   nopanic [C10]
+
+//@ func (*handler).getSpan
+//@   modifies nothing
+//@   nopanic [C10]
+
+//@ func (response).MarshalJSON
+//@   modifies nothing
+//@   nopanic [C10]
+
+//@ func (*JSONRPCError).val
+//@   modifies nothing
+//@   nopanic [C10]
+
+//@ func (*rpcFunc).processResponse
+//@   modifies nothing
+//@   requires wfRpcFunc(fn)
+//@   nopanic [C10]
+
 //@ func doCall
+//@   modifies nothing
 //@   nopanic [C13]
+//@   ensures result-shape: result1 == nil ==> len(result0) == NumOut(rtypeOf(f)) && (forall i :: 0 <= i && i < len(result0) ==> rtypeOf(result0[i]) == OutT(rtypeOf(f), i)) [C13,C10,C01]
+//@   ensures panic-is-error: didpanic() ==> result1 != nil [C13]
 
 //@ func (*backoff).next
+//@   modifies nothing
 //@   requires 0 <= b.minDelay && b.minDelay <= b.maxDelay
 //@   ensures in-range: attempt >= 0 ==> b.minDelay <= result && result <= b.maxDelay [C05]
 //@   ensures neg: attempt < 0 ==> result == b.minDelay [C05]
